@@ -278,7 +278,7 @@ _units = [FlowUnits.CFS, FlowUnits.GPM, FlowUnits.MGD, FlowUnits.IMGD, FlowUnits
           FlowUnits.CMH, FlowUnits.CMD]
 
 CONTRACTS = [
-    Contract("wntr.epanet.io:BinFile.read[convert_block]", P, [_convert_case(fu, True) for fu in _units] + [_convert_case(FlowUnits.GPM, False)], models=_models,
+    Contract("wntr.epanet.io:BinFile.read[convert_block]", P + ["C02"], [_convert_case(fu, True) for fu in _units] + [_convert_case(FlowUnits.GPM, False)], models=_models,
              note="extracted block: %s lines %d-%d (%s); parameters %s; one arbitrary entry of every table, arbitrary link type; link 'setting', "
                   "quality and reaction-rate tables are not specified here (not in the property's list)" % (
                       BLOCK_INFO["enclosing"], BLOCK_INFO["first_line"], BLOCK_INFO["last_line"], BLOCK_INFO["dropped"], BLOCK_INFO["parameters"]),
